@@ -1101,7 +1101,7 @@ def run_enum(tier, root, out):
     for i in range(vc.NCPU):
         sd = os.path.join(d, "s%d" % i)
         os.makedirs(sd)
-        procs.append((i, sd, subprocess.Popen([binary, str(i), str(vc.NCPU), sd] + paths, stdout=subprocess.PIPE, stderr=subprocess.PIPE, env=env)))
+        procs.append((i, sd, vc.Proc([binary, str(i), str(vc.NCPU), sd] + paths, env=env)))
     n = 0
     ok = True
     kinds = {}
@@ -1189,8 +1189,8 @@ def extra_phase(pid, tier, seed):
         env["ASAN_OPTIONS"] = "detect_leaks=0:abort_on_error=0"
         env["VERIF_INPROC_DIR"] = d
         fs = (seed * 613 + i * 17 + 3) % 2 ** 31 or 1
-        procs.append((d, subprocess.Popen([binary, "-runs=%d" % runs, "-max_len=700", "-seed=%d" % fs, "-artifact_prefix=" + d + "/",
-                                           "-print_final_stats=1", "-timeout=30", corp], stdout=subprocess.DEVNULL, stderr=subprocess.PIPE, env=env)))
+        procs.append((d, vc.Proc([binary, "-runs=%d" % runs, "-max_len=700", "-seed=%d" % fs, "-artifact_prefix=" + d + "/",
+                                  "-print_final_stats=1", "-timeout=30", corp], env=env)))
     for d, p in procs:
         err = p.communicate()[1].decode("latin-1")
         for ln in err.splitlines():
